@@ -299,8 +299,8 @@ pub fn run(rep: &mut Report, thorough: bool) {
             let m = if d[1] == 0 { appsmb::smb2_negotiate(&h, &[0x0202, 0x0311], &[1; 16]) } else { appsmb::smb2_session_setup(&h, &[1, 2, 3, 4]) };
             flow4(40000, 445).udp(&m)
         });
-        let dims = [255u64, 2, 3];
-        strict_sweep(rep, &format!("rpc-msgtype-{}", tag), "ONC-RPC message type low byte 1..255 x {UDP, record-marked UDP} x 3 reply bodies", product(&dims), "rpc", &|i| {
+        let dims = [255u64, 2, 7, 4];
+        strict_sweep(rep, &format!("rpc-msgtype-{}", tag), "ONC-RPC message type low byte 1..255 x {UDP, record-marked UDP} x 7 reply bodies (24..88 bytes) x 4 port pairs (from / to the portmapper port, NFS, high ports)", product(&dims), "rpc", &|i| {
             let d = unrank(i, &dims);
             let mt = (d[0] + 1) as u32;
             let mut b = Vec::new();
@@ -310,10 +310,18 @@ pub fn run(rep: &mut Report, thorough: bool) {
             match d[2] {
                 1 => b.extend_from_slice(&[0, 0, 0, 111]),
                 2 => b.extend_from_slice(&[0, 0, 0, 2, 0, 0, 0, 2, 0, 0, 0, 4]),
+                3 => b.extend_from_slice(&[0u8; 16]),
+                4 => b.extend_from_slice(&[0u8; 40]),
+                5 => {
+                    // opaque of 8 bytes + more result words
+                    b.extend_from_slice(&[0, 0, 0, 0, 0, 0, 0, 8, 1, 2, 3, 4, 5, 6, 7, 8, 0, 0, 0, 0, 0, 0, 0, 0]);
+                }
+                6 => b.extend_from_slice(&[0xffu8; 64]),
                 _ => {}
             }
             let m = if d[1] == 0 { b } else { apprpc::with_record_mark(&b) };
-            flow4(111, 40000).udp(&m)
+            let (sp, dp) = [(111u16, 40000u16), (40000, 111), (2049, 2049), (40000, 50000)][d[3] as usize];
+            flow4(sp, dp).udp(&m)
         });
         // STUN messages of class indication / success / error as LATER messages of a TCP connection
         // already identified as STUN (the only way such a message reaches the STUN responder)
